@@ -57,9 +57,14 @@ pub fn scc_history_case(fl: &str, id: &str, g: &GraphSpec, rng: &mut Rng, steps:
     }
     l.push("g.scc 0".into());
     let mut edges: Vec<(usize, usize)> = g.edges.iter().map(|e| (e.0, e.1)).collect();
+    // membership changes too: a member is isolated and removed, a removed node comes back (the precondition of the
+    // property - every neighbour of a member is a member - holds at every `g.scc`)
+    let mut members: Vec<usize> = (0..g.n).collect();
+    let mut outside: Vec<usize> = vec![];
     for _ in 0..steps {
         for _ in 0..1 + rng.below(3) {
-            match rng.below(6) {
+            let pick = |rng: &mut Rng, m: &Vec<usize>| -> usize { m[rng.below(m.len())] };
+            match rng.below(9) {
                 0 | 1 if !edges.is_empty() => {
                     // reverse an edge (same node and edge counts)
                     let i = rng.below(edges.len());
@@ -68,16 +73,16 @@ pub fn scc_history_case(fl: &str, id: &str, g: &GraphSpec, rng: &mut Rng, steps:
                     l.push(format!("connect {v} {u} 0"));
                     edges.push((v, u));
                 }
-                2 if !edges.is_empty() => {
+                2 if !edges.is_empty() && !members.is_empty() => {
                     let i = rng.below(edges.len());
                     let (u, v) = edges.remove(i);
                     l.push(format!("disconnect {u} {v}"));
-                    let (a, b) = (rng.below(g.n), rng.below(g.n));
+                    let (a, b) = (pick(rng, &members), pick(rng, &members));
                     l.push(format!("connect {a} {b} 0"));
                     edges.push((a, b));
                 }
-                3 => {
-                    let (a, b) = (rng.below(g.n), rng.below(g.n));
+                3 if !members.is_empty() => {
+                    let (a, b) = (pick(rng, &members), pick(rng, &members));
                     l.push(format!("connect {a} {b} 0"));
                     edges.push((a, b));
                 }
@@ -86,11 +91,26 @@ pub fn scc_history_case(fl: &str, id: &str, g: &GraphSpec, rng: &mut Rng, steps:
                     let (u, v) = edges.remove(i);
                     l.push(format!("disconnect {u} {v}"));
                 }
-                _ => {
-                    let k = rng.below(g.n);
+                6 | 7 if members.len() > 1 => {
+                    let i = rng.below(members.len());
+                    let k = members.remove(i);
+                    l.push(format!("isolate {k}"));
+                    edges.retain(|e| e.0 != k && e.1 != k);
+                    l.push(format!("g.remove 0 {k}"));
+                    outside.push(k);
+                }
+                8 if !outside.is_empty() => {
+                    let i = rng.below(outside.len());
+                    let k = outside.remove(i);
+                    l.push(format!("g.insert 0 {k}"));
+                    members.push(k);
+                }
+                _ if !members.is_empty() => {
+                    let k = pick(rng, &members);
                     l.push(format!("isolate {k}"));
                     edges.retain(|e| e.0 != k && e.1 != k);
                 }
+                _ => {}
             }
         }
         l.push("g.scc 0".into());
@@ -118,6 +138,8 @@ pub fn serde_history_case(fl: &str, id: &str, g: &GraphSpec, rng: &mut Rng) -> V
     l.extend(graph_lines(g));
     // the graph that is serialised has an edge history too: removals (which half of an undirected edge sits in which
     // list is visible to the serialiser only), edges re-made from the other end, refused and accepted try_connects
+    let dir = is_directed(fl);
+    let mut cur: Vec<(usize, usize)> = g.edges.iter().map(|e| (e.0, e.1)).collect();
     if g.n > 0 {
         for _ in 0..rng.below(7) {
             let (u, v) = if !g.edges.is_empty() && rng.chance(70) {
@@ -126,24 +148,68 @@ pub fn serde_history_case(fl: &str, id: &str, g: &GraphSpec, rng: &mut Rng) -> V
             } else {
                 (rng.below(g.n), rng.below(g.n))
             };
+            let has = |cur: &Vec<(usize, usize)>, u: usize, v: usize| cur.iter().position(|e| (e.0 == u && e.1 == v) || (!dir && e.0 == v && e.1 == u));
             match rng.below(10) {
-                0..=3 => l.push(format!("disconnect {u} {v}")),
-                4..=6 => l.push(format!("connect {u} {v} {}", rng.below(2))),
-                7..=8 => l.push(format!("try_connect {u} {v} {}", rng.below(2))),
-                _ => l.push(format!("isolate {u}")),
+                0..=3 => {
+                    l.push(format!("disconnect {u} {v}"));
+                    if let Some(i) = has(&cur, u, v) {
+                        cur.remove(i);
+                    }
+                }
+                4..=6 => {
+                    l.push(format!("connect {u} {v} {}", rng.below(2)));
+                    cur.push((u, v));
+                }
+                7..=8 => {
+                    l.push(format!("try_connect {u} {v} {}", rng.below(2)));
+                    if has(&cur, u, v).is_none() {
+                        cur.push((u, v));
+                    }
+                }
+                _ => {
+                    l.push(format!("isolate {u}"));
+                    cur.retain(|e| e.0 != u && e.1 != u);
+                }
             }
         }
     }
     l.push("g.new 0".into());
-    let order = shuffled(rng, g.n);
+    // sometimes the container holds only what is reachable from one node (closed under outgoing edges; which edge
+    // removal hits which of several parallel edges does not matter for reachability): non-members may point into it
+    let mut inside: Vec<usize> = (0..g.n).collect();
+    if g.n > 1 && rng.chance(50) {
+        // prefer a start node whose closure leaves somebody outside who points into it
+        for r in shuffled(rng, g.n) {
+            let mut seen = vec![r];
+            let mut i = 0;
+            while i < seen.len() {
+                let u = seen[i];
+                for e in &cur {
+                    let w = if e.0 == u { Some(e.1) } else if !dir && e.1 == u { Some(e.0) } else { None };
+                    if let Some(w) = w {
+                        if !seen.contains(&w) {
+                            seen.push(w);
+                        }
+                    }
+                }
+                i += 1;
+            }
+            let pointed_at = cur.iter().any(|e| !seen.contains(&e.0) && seen.contains(&e.1));
+            if seen.len() < g.n && (pointed_at || !dir) {
+                inside = seen;
+                break;
+            }
+        }
+    }
+    let order: Vec<usize> = shuffled(rng, g.n).into_iter().filter(|k| inside.contains(k)).collect();
     for &k in &order {
         l.push(format!("g.insert 0 {k}"));
     }
     for _ in 0..1 + rng.below(3) {
-        let k = rng.below(g.n);
+        let k = inside[rng.below(inside.len())];
         l.push(format!("g.remove 0 {k}"));
         if rng.chance(30) {
-            let k2 = rng.below(g.n);
+            let k2 = inside[rng.below(inside.len())];
             l.push(format!("g.remove 0 {k2}"));
             l.push(format!("g.insert 0 {k2}"));
         }
@@ -152,7 +218,8 @@ pub fn serde_history_case(fl: &str, id: &str, g: &GraphSpec, rng: &mut Rng) -> V
             l.push(format!("g.insert 0 {k}"));
         }
     }
-    for fmt in ["json", "cbor"] {
+    // (a successful round trip replaces the world, so the second format sees the output of the first: either order)
+    for fmt in if rng.chance(50) { ["json", "cbor"] } else { ["cbor", "json"] } {
         l.push(format!("g.ser 0 {fmt}"));
         l.push(format!("g.serraw 0 {fmt}"));
         l.push(format!("g.roundtrip 0 {fmt}"));
@@ -170,7 +237,7 @@ pub fn serde_case(fl: &str, id: &str, g: &GraphSpec) -> Vec<String> {
     for k in 0..g.n {
         l.push(format!("g.insert 0 {k}"));
     }
-    for fmt in ["json", "cbor"] {
+    for fmt in if (g.n + g.edges.len()) % 2 == 0 { ["json", "cbor"] } else { ["cbor", "json"] } {
         l.push(format!("g.ser 0 {fmt}"));
         l.push(format!("g.serraw 0 {fmt}"));
         l.push(format!("g.roundtrip 0 {fmt}"));
